@@ -1129,6 +1129,24 @@ func (ex *Exec) afterCallGhost(v *ssa.Call, c *ssa.CallCommon) {
 		} else if r.T != "" {
 			extra["$ret"] = TV{T: r.T, Ty: goVT(rt)}
 		}
+		if a.Clause.Kind == "assume-at" {
+			// a declared restriction of the verified domain: paths on which the condition fails after this call are
+			// NOT verified (reported as an assumption; something else must stand in for them)
+			e, err := parseExpr(a.Clause.Text)
+			if err != nil {
+				ex.vc.errorf("%s: %v", a.Clause.Src, err)
+				continue
+			}
+			ev := ex.newEval(ex.curState, ex.entry)
+			ex.bindParams(ev)
+			ev.point = &progPoint{block: ex.curBlock, idx: idx}
+			for k, x := range extra {
+				ev.vars[k] = x
+			}
+			ex.vc.assume(sImp(ex.curReach, ev.evalBool(e)))
+			ex.vc.assumptions[fmt.Sprintf("%s: paths with !(%s) after the call of %s#%d are NOT verified deductively (assumed away)", ex.vc.key, strings.TrimSpace(a.Clause.Text), a.Callee, a.Ordinal)] = true
+			continue
+		}
 		ex.applyGhostUpdateX(a.Clause, ex.curState, &progPoint{block: ex.curBlock, idx: idx}, ex.curReach, extra)
 	}
 }
